@@ -1702,6 +1702,75 @@ func boundaryStream(c *cli.Ctx, r *emit.Rng) error {
 	return w.Flush()
 }
 
+// ---------- stacked magic suffixes ----------
+
+// stackedStream: a base family (x, x_count, x_sum or x_bucket; histogram, summary or gauge) and a sibling whose name carries
+// STACKED magic suffixes (x_sum_count, x_bucket_count, x_count_sum, ...), in both collection orders, through Registry.Gather
+// (one unchecked collector) and through Gatherers.Gather.  Only ONE suffix may be stripped when looking for the base.
+func stackedStream(c *cli.Ctx, r *emit.Rng) error {
+	w := emit.NewWriter(c.Out, "C09", "stackedsuffix")
+	var fl failures
+	setScheme(false)
+	suf := []string{"_count", "_sum", "_bucket"}
+	for _, b := range []string{"x", "api_latency"} {
+		for _, s1 := range suf {
+			for _, s2 := range suf {
+				for _, baseName := range []string{b, b + s1} {
+					for _, baseTy := range []int{4, 2, 1} {
+						for order := 0; order < 2; order++ {
+							sib := b + s1 + s2
+							names := []string{baseName, sib}
+							tys := []int{baseTy, []int{0, 1, 3}[r.Intn(3)]}
+							if order == 1 {
+								names[0], names[1], tys[0], tys[1] = names[1], names[0], tys[1], tys[0]
+							}
+							tags := []string{fmt.Sprintf("base-type:%d", baseTy), "sibling:" + s1 + s2, fmt.Sprintf("order:%d", order)}
+							if baseName == b {
+								tags = append(tags, "base:plain")
+							} else {
+								tags = append(tags, "base:suffixed")
+							}
+							idx := w.Len()
+							if (idx/2)%2 == 0 {
+								arr, out, ids := gatherOrdered(false, func(rc *recorder) []prometheus.Metric {
+									var ms []prometheus.Metric
+									for k := range names {
+										m := &dto.Metric{}
+										setPayload(m, tys[k], k+1)
+										ms = append(ms, &advMetric{r: rc, x: rc.newRec(false), d: prometheus.NewDesc(names[k], "h", nil, nil), content: m})
+									}
+									return ms
+								})
+								if rt := roundTrip(out.mfs); rt != "" {
+									fl.add(idx, rt)
+								}
+								w.Add(emit.Tup("0", "0", "0", ids, arr, familiesTerm(out.mfs), kindsTerm(out.kinds)), true, append(tags, "via:registry")...)
+							} else {
+								var mfs []*dto.MetricFamily
+								for k := range names {
+									m := &dto.Metric{}
+									setPayload(m, tys[k], k+1)
+									mfs = append(mfs, &dto.MetricFamily{Name: proto.String(names[k]), Help: proto.String("h"), Type: dto.MetricType(tys[k]).Enum(), Metric: []*dto.Metric{m}})
+								}
+								answer := emit.Pair(familiesTerm(mfs), kindsTerm(nil))
+								out, _ := gatherWithWatchdog(prometheus.Gatherers{prometheus.GathererFunc(func() ([]*dto.MetricFamily, error) { return mfs, nil })})
+								if rt := roundTrip(out.mfs); rt != "" {
+									fl.add(idx, rt)
+								}
+								w.Add(emit.Tup("1", "0", emit.L([]string{answer}), familiesTerm(out.mfs), kindsTerm(out.kinds)), true, append(tags, "via:gatherers")...)
+							}
+						}
+					}
+				}
+			}
+		}
+	}
+	if len(fl.list) > 0 {
+		w.Extra["direct_failures"] = fl.list
+	}
+	return w.Flush()
+}
+
 // ---------- collectors that use the registry from within Collect ----------
 
 type reentrantCollector struct {
@@ -1919,6 +1988,9 @@ func runC09(c *cli.Ctx) error {
 		return err
 	}
 	if err := boundaryStream(c, r.Fork()); err != nil {
+		return err
+	}
+	if err := stackedStream(c, r.Fork()); err != nil {
 		return err
 	}
 	if err := reentrantStream(c, r.Fork()); err != nil {
